@@ -362,7 +362,7 @@ func agree(what string, got any, gok bool, want any, wok bool, mode agreeMode) e
 
 func isStructVal(v any) bool {
 	switch v.(type) {
-	case subT, *subT, RootBase, *RootBase, BaseN, *BaseN, Deep2, *Deep2:
+	case subT, *subT, Ort, *Ort, RootBase, *RootBase, BaseN, *BaseN, Deep2, *Deep2:
 		return true
 	}
 	return false
@@ -642,6 +642,10 @@ func textOnly(html string) string {
 }
 
 func checkSeq(c SeqCase) error {
+	return guard("history", func() error { return checkSeqInner(c) })
+}
+
+func checkSeqInner(c SeqCase) error {
 	names := c.Names
 	if len(names) == 0 {
 		names = bigUniverse
@@ -853,6 +857,10 @@ func (c PathCase) stack(v any) (*vuego.Stack, string) {
 }
 
 func checkPath(c PathCase) error {
+	return guard("path case", func() error { return checkPathInner(c) })
+}
+
+func checkPathInner(c PathCase) error {
 	v := c.Val.Go()
 	exp, out, _ := walk(v, c.Steps)
 	s, name := c.stack(v)
@@ -1036,6 +1044,9 @@ func TestProp(t *testing.T) {
 					if (root.Kind == "struct" || root.Kind == "ptr") && known.Open(kfTagOverName) {
 						c.EnvSkip = append(c.EnvSkip, "Kind") // region of the open finding
 						rec.Excluded(kfTagOverName)
+					}
+					if root.Data != nil && root.Data.K == "ort" {
+						c.Names = ortUniverse
 					}
 					if root.Data != nil && root.Data.K == "page" {
 						c.Names = pageUniverse
